@@ -106,9 +106,32 @@ def buffered_reader(ctx, R, roles, T, rule="BUF"):
             return False
         la, lb = lin_ast(a_, buf), lin_ast(b_, buf)
         return la is not None and lb is not None and lin_add(lb, la, -1) == missing      # not (a < b) with b - a == size - len(buffer)
+    _K = []
+
+    def refill_done_affine(m, l, fa):
+        # the same, modulo the affine equalities that hold on that edge (`missing == size - len(buffer)` kept up to date by the loop)
+        if fa[0][0] != "lt" or fa[1] is not False:
+            return False
+        if not _K:
+            from ..karr import Karr
+            try:
+                _K.append(Karr(ctx, f).run())
+            except Exception:   # noqa
+                _K.append(None)
+        K = _K[0]
+        if K is None or ("len:" + buf) not in K.idx or size not in K.idx:
+            return False
+        try:
+            a_, b_ = K.lin(eval_dump(fa[0][1])), K.lin(eval_dump(fa[0][2]))
+        except Exception:   # noqa
+            return False
+        if a_ is None or b_ is None:
+            return False
+        from ..karr import lin_add as kadd
+        return K.entails_edge(m, l, kadd(kadd(b_, a_, -1), ({size: 1, "len:" + buf: -1}, 0), -1))
     for (m, d, l) in loop_exit_edges(g, head):
         have = set(df.facts(m)) | df.edge_facts(m, l)
-        ok = any(fa[0] == ("lt", bk, sk) and fa[1] is False for fa in have) or any(refill_done(fa) for fa in have)
+        ok = any(fa[0] == ("lt", bk, sk) and fa[1] is False for fa in have) or any(refill_done(fa) for fa in have) or any(refill_done_affine(m, l, fa) for fa in have)
         R.check(ok, rule, "%s|exit|%s" % (q, norm_stmt(m.ast) if m.ast is not None else m.kind), "the refill loop ends only when len(buffer) >= size",
                 "the refill loop can end at `%s` before the buffer holds `size` bytes: a record is returned short" % (norm_stmt(m.ast) if m.ast is not None else m.kind), f.loc(m.ast))
     for n in g.nodes:
